@@ -43,6 +43,10 @@ def _mk(B, struct, name, n=4):
 
 def _answers(model, Xn=None, S=None):
     out = {"components": model.components(), "scores": model.scores(), "explained_variance": model.explained_variance(), "singular_values": model.singular_values(), "ratio": model.explained_variance_ratio()}
+    if "norms" in model.data:
+        # the non-default flags of the two accessors are queries too
+        out["components(normalized=False)"] = model.components(normalized=False)
+        out["scores(normalized=True)"] = model.scores(normalized=True)
     if Xn is not None:
         out["transform(new)"] = model.transform(Xn)
     if S is not None:
@@ -81,6 +85,7 @@ def _apply(B, op, model, X, Xn, S):
         model.inverse_transform(S)
     elif op == "queries":
         model.components(); model.scores(); model.explained_variance(); model.explained_variance_ratio(); model.singular_values()
+        model.components(normalized=False); model.scores(normalized=True); model.components(normalized=False)
     elif op == "compute":
         model.compute()
     elif op == "serialize":
